@@ -29,7 +29,23 @@ fn acts() -> Vec<MAct> {
     ]
 }
 
+/// command names in lower and mixed case on the transaction path: MULTI / EXEC / DISCARD themselves and the one queued
+/// command EXEC treats specially (a seeded byte-exact comparison made a queued `select` a no-op)
+fn case_acts() -> Vec<MAct> {
+    vec![
+        mcmd(0, &["multi"]), mcmd(0, &["Exec"]), mcmd(0, &["discard"]), mcmd(0, &["MULTI"]), mcmd(0, &["EXEC"]),
+        mcmd(0, &["select", "1"]), mcmd(0, &["Select", "2"]), mcmd(0, &["SELECT", "0"]), mcmd(0, &["set", "a", "1"]), mcmd(0, &["Incr", "a"]), mcmd(0, &["get", "a"]),
+    ]
+}
+
 fn make_world(spec: &str) -> Option<Box<dyn World>> {
+    if spec == "c07-case" {
+        return Some(Box::new(MultiWorld::new(MultiSpec {
+            prop: "C07".into(), nconns: 1, acts: case_acts(),
+            probes: vec![sv(&["GET", "a"]), sv(&["DBSIZE"])],
+            uses_time: false, dump: true, srv_opts: SrvOpts::default(),
+        })));
+    }
     if spec != "c07-tx" {
         return None;
     }
@@ -50,6 +66,7 @@ struct Role {
 }
 
 fn roles(variant: usize) -> Vec<Role> {
+    let thorough = crate::THOROUGH.load(std::sync::atomic::Ordering::SeqCst);
     let c = |v: &[&str]| resp::cmd(v);
     let t_chunks: Vec<Vec<u8>> = match variant {
         // one command per chunk
@@ -68,7 +85,8 @@ fn roles(variant: usize) -> Vec<Role> {
     };
     vec![
         Role { name: "T", chunks: t_chunks, max_per_round: 2 },
-        Role { name: "R", chunks: vec![c(&["MGET", "a", "b"]), c(&["MGET", "a", "b"]), c(&["MGET", "a", "b"])], max_per_round: 1 },
+        // (the quick tier gives the reader of the six-chunk transaction two reads instead of three: 3.5 times fewer schedules)
+        Role { name: "R", chunks: if thorough || variant != 0 { vec![c(&["MGET", "a", "b"]), c(&["MGET", "a", "b"]), c(&["MGET", "a", "b"])] } else { vec![c(&["MGET", "a", "b"]), c(&["MGET", "a", "b"])] }, max_per_round: 1 },
         Role { name: "W", chunks: vec![c(&["INCR", "c"]), c(&["INCR", "c"])], max_per_round: 1 },
     ]
 }
@@ -176,7 +194,7 @@ fn run_schedule(h: &mut Harness, variant: usize, order: &[usize], sched: &[Vec<u
             _ => problems.push("reader-bad-reply".to_string()),
         }
     }
-    if frames[1].len() != 3 {
+    if frames[1].len() != rs[1].chunks.len() {
         problems.push("reader-reply-count".to_string());
     }
     // the transaction's two reads of c are equal
@@ -656,7 +674,8 @@ fn extra_parent(pool: &Pool, tier: &str, report: &mut RunReport) -> Value {
 fn prop() -> DataProp {
     DataProp {
         id: "C07",
-        specs: vec![SpecRun { spec: "c07-tx", depth_quick: 5, depth_thorough: 7, budget_quick_s: 25.0, budget_thorough_s: 1500.0 }],
+        specs: vec![SpecRun { spec: "c07-tx", depth_quick: 5, depth_thorough: 7, budget_quick_s: 25.0, budget_thorough_s: 1500.0 },
+            SpecRun { spec: "c07-case", depth_quick: 5, depth_thorough: 7, budget_quick_s: 10.0, budget_thorough_s: 600.0 }],
         make_world,
         assumptions: {
             let mut a = e1common::std_assumptions();
